@@ -34,6 +34,8 @@ var c16Programs = [...]string{
 	"{\nk = 3\ng = (a, b) -> {\n  t = a + k\n  t * b\n}\ng(1, 2)\n}",
 	"{\nwrite(\"{\")\nwrite(\"b\")\n}",
 	"1/0",
+	"write(\"x\ny\")",
+	"[1,\n2,\n3][1]",
 }
 
 func newVM() *vm.Type {
